@@ -177,8 +177,18 @@ class MultiFunction(Generic[T, P]):
     def get_method(self, key: T) -> Method[T, P] | None:
         """Return the method which would handle this dispatch key or None if no method
         defined for this key and no default."""
-        if self._cached_hierarchy == self._hierarchy.deref():
-            cached_val = self._cache.val_at(key)
+        # The cache and the hierarchy value it is valid for are two attributes, read here
+        # without the lock. Only trust the cache if no other thread replaced that
+        # hierarchy value while we were reading: otherwise the check could pass against
+        # an old (but equal) hierarchy value and the entry then read could come from a
+        # cache rebuilt for a different, already superseded hierarchy.
+        cached_hierarchy = self._cached_hierarchy
+        cache = self._cache
+        if (
+            cached_hierarchy is self._cached_hierarchy
+            and cached_hierarchy == self._hierarchy.deref()
+        ):
+            cached_val = cache.val_at(key)
             if cached_val is not None:
                 return cached_val
 
